@@ -693,6 +693,16 @@ func (fsm *fsm) stateChange(nextState bgp.FSMState, reason *fsmStateReason) {
 		}
 		conf.Timers.State.KeepaliveInterval = keepalive
 
+		// what was negotiated is a property of one session: start from the configuration
+		conf.GracefulRestart.State.Enabled = false
+		conf.GracefulRestart.State.NotificationEnabled = false
+		conf.GracefulRestart.State.LongLivedEnabled = false
+		for i, a := range conf.AfiSafis {
+			conf.AfiSafis[i].MpGracefulRestart.State.Enabled = a.MpGracefulRestart.Config.Enabled
+			conf.AfiSafis[i].MpGracefulRestart.State.Received = false
+			conf.AfiSafis[i].LongLivedGracefulRestart.State.Enabled = false
+			conf.AfiSafis[i].LongLivedGracefulRestart.State.Received = false
+		}
 		gr, ok := fsm.capMap[bgp.BGP_CAP_GRACEFUL_RESTART]
 		if conf.GracefulRestart.Config.Enabled && ok {
 			state := &conf.GracefulRestart.State
